@@ -95,10 +95,10 @@ Definition errclass_of_code (z : Z) : errclass :=
   | 5 => ValueError | 6 => IndexError | 7 => AttributeError | 8 => TypeError
   | 9 => IntegrityError | _ => OtherError
   end.
-Definition sOutcome (s : sexp) : option (res value) :=
+Definition sOutcome (s : sexp) : option (value + errclass) :=
   match s with
-  | L [A 0; v] => match sValue v with Some v => Some (Ok v) | None => None end
-  | L [A 1; A c] => Some (Err (errclass_of_code c))
+  | L [A 0; v] => match sValue v with Some v => Some (inl v) | None => None end
+  | L [A 1; A c] => Some (inr (errclass_of_code c))
   | _ => None
   end.
 
@@ -110,11 +110,11 @@ Definition arg_s (a : arg) : sexp :=
   end.
 
 (* the world of the scripted run: pending body outcomes, calls made, exhaustion flag *)
-Record world := mkWorld { w_script : list (res value); w_log : list (str * list arg); w_exh : bool }.
+Record world := mkWorld { w_script : list (value + errclass); w_log : list (str * list arg); w_exh : bool }.
 
-Definition scripted_body (name : str) (args : list arg) (w : world) : res value * world :=
+Definition scripted_body (name : str) (args : list arg) (w : world) : (value + errclass) * world :=
   match w_script w with
-  | [] => (Err OtherError, mkWorld [] (w_log w ++ [(name, args)]) true)
+  | [] => (inr OtherError, mkWorld [] (w_log w ++ [(name, args)]) true)
   | r :: t => (r, mkWorld t (w_log w ++ [(name, args)]) (w_exh w))
   end.
 
